@@ -39,6 +39,9 @@ def main(tier: str) -> int:
     tasks = families.applicable_tasks(tier, runner.seed())
     n_first = len(tasks)
     tasks += families.applicable_again_tasks(tier, runner.seed())
+    # type hierarchies of three levels declared children first, with objects of the deepest type (the range programs of C06)
+    from . import c06
+    tasks += [t for t in c06.range_tasks(tier) if t["mode"] == "applicable"]
     tw = twins()
     results = runner.pmap(callsym.run_task, tasks + tw, chunksize=4)
     summarize(rep, tasks, results[: len(tasks)], "applicable")
